@@ -45,6 +45,11 @@ Step ==
         /\ hist' = Append(hist, Rec("col_swap", [h |-> h, i |-> i, j |-> j]))
   \/ \E h \in Handles, i \in 0 .. 2, j \in 0 .. 2 : RowAdd2(h, i, j) /\ lastw' = h /\ hist' = Append(hist, Rec("row_add", [h |-> h, src |-> i, dst |-> j]))
   \/ \E h \in Handles : Echelonize(h) /\ lastw' = h /\ hist' = Append(hist, Rec("echelonize", [h |-> h]))
+  \* relational steps have no outcome in the generator (values are not tracked there)
+  \/ ABSTRACT /\ \E h \in Handles, kind \in {"ple", "pluq"} : PleStep(h, 0, 0, 0, 0, 0) /\ lastw' = h /\ hist' = Append(hist, Rec(kind, [h |-> h]))
+  \/ ABSTRACT /\ \E h \in Handles : EchelonStep(h, 0, 0) /\ lastw' = h /\ hist' = Append(hist, Rec("echelonize_nf", [h |-> h]))
+  \/ \E x \in H2 : x[1] <= x[2] /\ Dm(x[1]) = Dm(x[2]) /\ Dn(x[1]) = Dn(x[2]) /\ Observe(x[1], x[2]) /\ lastw' = 0
+        /\ hist' = Append(hist, Rec(IF x[1] = x[2] THEN "is_zero" ELSE "equal", [a |-> x[1], b |-> x[2]]))
 
 Next == Len(hist) < Depth /\ Step
 Spec == Init /\ [][Next]_vars
